@@ -5,6 +5,7 @@ from contracts import c13
 from contracts import worker
 from contracts.runtime_prog import build
 from contracts.runtime_specs import add_macros
+from pyvc.engine import Contract
 from pyvc.engine import Program
 
 ASSUMPTIONS = sorted(set(worker.ASSUMPTIONS + c13.ASSUMPTIONS)) + [
@@ -23,6 +24,7 @@ TARGETS = [
     'DetachedServer.handle_message#CLIENT.CANCEL',
     'DetachedServer.handle_message#CLIENT.DISCONNECT',
     'ServerBase.broadcast',
+    'Manager.handle_message#ABOVE.CANCEL',
 ]
 
 
@@ -34,6 +36,27 @@ def setup(repo: str) -> tuple[Program, list[str]]:
     c15.contracts(p)
     worker.contracts(p)
     c13.contracts(p)
+    # a manager passes a CANCEL from above on to every employee, busy or
+    # idle: an idle worker must still learn the address, it may be handed
+    # a descendant of the cancelled task afterwards
+    p.contract(Contract(
+        'Manager.handle_message#ABOVE.CANCEL',
+        params={'msg': 'RuntimeMessage', 'direction': 'MessageDirection',
+                'conn': 'Conn', 'payload': 'Any'},
+        self_cls='Manager',
+        requires=['msg == RuntimeMessage.CANCEL',
+                  'direction == MessageDirection.ABOVE'],
+        ensures=[
+            'nsent() == old(nsent()) + len(self.employees)',
+            '''forall(lambda i: implies(old(nsent()) <= i and i < nsent(),
+                 eff(i, 'outgoing.put',
+                     self.employees[i - old(nsent())].conn,
+                     RuntimeMessage.CANCEL, payload)), 'int')''',
+            "unchanged('employees', 'conn', 'num_tasks', 'num_idle_workers',"
+            " 'submit_cache')",
+        ],
+        raises=[],
+    ))
     return p, [t for t in TARGETS if t in p.contracts]
 
 
@@ -41,4 +64,16 @@ def bounded(tier: str) -> dict:
     gens = {}
     gens.update(c13.bounded(tier))
     gens.update(worker.bounded(tier))
+
+    def manager_cancel():
+        from pybound import rt
+        for sc in rt.sched_scenarios(rt.Manager, tier):
+            sc.extra['overrides'] = {
+                'Conn': lambda sc: sc.extra['employee_conns'],
+                'msg': [rt.RuntimeMessage.CANCEL],
+                'direction': [rt.MessageDirection.ABOVE],
+                'payload': [rt.ADDRS[0]],
+            }
+            yield sc
+    gens['Manager.handle_message#ABOVE.CANCEL'] = manager_cancel
     return {t: gens[t] for t in TARGETS if t in gens}
